@@ -35,6 +35,14 @@ CHECKS = {
    text="async decode under generated delivery schedules (whole, bytewise, every single split point of short messages, scripted chunks with Pending) compared with the in-memory decode of the same bytes (valid, truncated, bit-flipped, type-corrupted); values equal, errors agree, bytes taken from the stream equal bytes consumed in memory",
    note="schedules are owned by a scripted AsyncRead and a single-thread executor; inputs that enlarge length fields are C09's subject and excluded (counted)",
    tech=PBT + "; differential oracle sync vs async over generated schedules, exhaustive split points for short messages"),
+ "C15": dict(cat="exploration",
+   text="generated descriptor-level documents printed under generated layouts (blank/comment style at every blank position, ','/';'/none separators, quote style, keyword-prefixed identifiers) and parsed back; nothing may be left unparsed and the Debug rendering of items and package must equal that of the AST built from the document",
+   note="only layouts allowed by the Apache IDL grammar are printed; failure signatures distinguish layout-dependent from layout-independent disagreements",
+   tech=PBT + "; print/parse round trip with metamorphic layout variation"),
+ "C16": dict(cat="exploration",
+   text="random IDL-biased text, token-level mutants of printed valid documents and nesting probes up to depth 64 parsed on a 2 MiB-stack thread inside a journaled child process; a panic or the child's death is a violation",
+   note="nesting beyond 64 is outside the property and removed from generated inputs by construction",
+   tech=PBT + " / grammar-aware mutation fuzzing; oracle: returns without panic, child process survives"),
 }
 ORDER = sorted(CHECKS)
 checks = []
